@@ -1338,6 +1338,47 @@ def _vcd_str_format(r, repo):
                  "give equal strings for the change compression)", st)
 
 
+def _walk_children(R, stmt, mparam):
+    """evaluate a hand-written enumeration of a component's children (the statement holding the recursive calls) on small
+    field shapes with components in fields, lists and nested lists; returns (descriptions of components missed, visited wrongly)"""
+    import copy
+    from sa.listwalk import ListWalk
+
+    class Sub(ast.NodeTransformer):
+        def visit_Call(self, n):
+            self.generic_visit(n)
+            f = n.func
+            if isinstance(f, ast.Attribute) and f.attr in ('items', 'values', 'keys') and not n.args and \
+                    norm(f.value) in (f'{mparam}.__dict__', f'vars({mparam})'):
+                return ast.copy_location(ast.Name(id=f'__{f.attr}__', ctx=ast.Load()), n)
+            if isinstance(f, ast.Attribute) and f.attr == 'get_child_components' and norm(f.value) == mparam:
+                return ast.copy_location(ast.Name(id='__children__', ctx=ast.Load()), n)
+            return n
+    frag = [ast.fix_missing_locations(Sub().visit(copy.deepcopy(st_))) for st_ in (stmt if isinstance(stmt, list) else [stmt])]
+    shapes = [
+        [('a', 'field a'), ('sig', 1), ('lst', ['list lst[0]', 'list lst[1]']),
+         ('nest', [['nested list nest[0][0]'], ['nested list nest[1][0]', ['nested list nest[1][1][0]']]]),
+         ('mix', [2, 'list mix[1]']), ('_hidden', 'private field'), ('ifc', 3), ('empty', [])],
+        [],
+    ]
+    missing, extra = [], []
+    for fields in shapes:
+        def comps(o):
+            if isinstance(o, list):
+                return [c for x in o for c in comps(x)]
+            return [o] if isinstance(o, str) else []
+        expected = [c for n_, o in fields if not n_.startswith('_') for c in comps(o)]
+        visited = []
+        env = {p_: '' for p_ in _params(R)}
+        env.update({'__items__': [(n_, o) for n_, o in fields], '__values__': [o for _, o in fields],
+                    '__keys__': [n_ for n_, _ in fields], '__children__': list(expected)})
+        w = ListWalk({'Component'}, env=env, funcs={R.name: lambda c, *a: visited.append(c)})
+        w.block(frag)
+        missing += [c for c in expected if c not in visited]
+        extra += [str(c) for c in visited if c not in expected or visited.count(c) > 1]
+    return missing, sorted(set(extra))
+
+
 def rule_header(repo):
     r = RuleResult('R-C16-header', "every top-level signal of every component gets a $var of its type's width under its net's symbol, "
                                    "every net gets its initial value, the clock index names the net holding s.clk, to_vcd_str has the VCD format")
@@ -1488,9 +1529,18 @@ def rule_header(repo):
     Ps, toks_s, holes_s = kinds['$scope'][0]
     Pu, toks_u, holes_u = kinds['$upscope'][0]
     rec_calls = [n for n in ast.walk(R) if _is_call(n, name=R.name)]
-    cloop = enclosing(rec_calls[0], (ast.For,)) if len(rec_calls) == 1 else None
-    if cloop is None or parent(cloop) is not R:
-        raise AnalysisError(f"{R.name}: expected one recursive call inside a loop over the children")
+    if not rec_calls:
+        raise AnalysisError(f"{R.name}: no recursive call")
+    ctops = []
+    for c_ in rec_calls:
+        t_ = stmt_of(c_)
+        while parent(t_) is not R:
+            t_ = parent(t_)
+        if not any(t_ is x for x in ctops):
+            ctops.append(t_)
+    if len(ctops) != 1:
+        raise AnalysisError(f"{R.name}: the recursive calls are spread over several statements")
+    cloop = ctops[0]
     order = [_pos(R, stmt_of(Ps)), _pos(R, sloop), _pos(R, cloop), _pos(R, stmt_of(Pu))]
     okG = parent(stmt_of(Ps)) is R and parent(stmt_of(Pu)) is R and order[0] < order[1] and order[0] < order[2] and order[3] > order[1] \
         and order[3] > order[2] and toks_s[:2] == ['$scope', 'module'] and toks_s[-1] == '$end' and toks_u == ['$upscope', '$end']
@@ -1498,10 +1548,26 @@ def rule_header(repo):
          "children and close it after them, unconditionally: otherwise variables are attributed to the wrong component", R)
     # H. recursion over all children
     call = rec_calls[0]
-    okH = norm(_strip_wrappers(cloop.iter)) == f'{mparam}.get_child_components()' and isinstance(cloop.target, ast.Name) and \
-        call.args and norm(call.args[0]) == cloop.target.id and not _cond_guards(stmt_of(call)) and len(_loop_guards(stmt_of(call))) == 1
-    _chk(r, okH, m, rq, f"for {norm(cloop.target)} in {norm(cloop.iter)}: {norm(call)}", "the recursion must visit every child component: "
-         "a skipped child's signals are missing from the waveform", cloop)
+    if len(rec_calls) == 1 and isinstance(cloop, ast.For) and enclosing(call, (ast.For,)) is cloop and \
+            any(_is_call(n, attr='get_child_components') for n in ast.walk(cloop.iter)):
+        okH = norm(_strip_wrappers(cloop.iter)) == f'{mparam}.get_child_components()' and isinstance(cloop.target, ast.Name) and \
+            call.args and norm(call.args[0]) == cloop.target.id and not _cond_guards(stmt_of(call)) and len(_loop_guards(stmt_of(call))) == 1
+        _chk(r, okH, m, rq, f"for {norm(cloop.target)} in {norm(cloop.iter)}: {norm(call)}", "the recursion must visit every child component: "
+             "a skipped child's signals are missing from the waveform", cloop)
+    else:
+        # a hand-written walk over the component's fields: decided by evaluating it on nested list shapes
+        frag = [cloop]
+        k_ = R.body.index(cloop) - 1
+        while k_ >= 0 and isinstance(R.body[k_], (ast.Assign, ast.AugAssign)) and \
+                all(isinstance(t_, ast.Name) for t_ in (R.body[k_].targets if isinstance(R.body[k_], ast.Assign) else [R.body[k_].target])):
+            frag.insert(0, R.body[k_])      # helper locals (work lists) set up right before the walk
+            k_ -= 1
+        missing, extra = _walk_children(R, frag, mparam)
+        r.evaluations += 2
+        _chk(r, not missing and not extra, m, rq, f"hand-written child walk: {norm(cloop)[:100]}",
+             (f"child components held in {', '.join(missing)} are never visited by the header recursion (get_child_components() descends "
+              f"lists of any depth and skips only `_` fields): they get no $scope and their signals no $var" if missing else
+              f"the header recursion visits {', '.join(extra)}: scopes are emitted twice / for objects that are not child components"), cloop)
     # I. started at top
     tops = [s for s in mk.body if isinstance(s, ast.Expr) and _is_call(s.value, name=R.name) and s.value.args and norm(s.value.args[0]) == top]
     _chk(r, len(tops) == 1, m, q, f"{R.name}({top}, ...)", "the header recursion must be started once, unconditionally, at the top component", mk)
@@ -2227,6 +2293,98 @@ def rule_gen_isolation(repo):
     return r
 
 
+COMPONENT = 'pymtl3/dsl/Component.py'
+
+
+def _registry_adds(func, attr):
+    """(added expression, node) for every `<x>._dsl.<attr> |= e` / `.add(e)` / `.update(e)` in func"""
+    out = []
+
+    def one(e):       # `|= {o}` / `.update([o])` add the element o, like `.add(o)`
+        return e.elts[0] if isinstance(e, (ast.Set, ast.List, ast.Tuple)) and len(e.elts) == 1 else e
+    for n in ast.walk(func):
+        if isinstance(n, ast.AugAssign) and isinstance(n.op, ast.BitOr) and isinstance(n.target, ast.Attribute) and n.target.attr == attr:
+            out.append((one(n.value), n))
+        elif _is_call(n, None, nargs=1) and isinstance(n.func, ast.Attribute) and n.func.attr in ('add', 'update') and \
+                isinstance(n.func.value, ast.Attribute) and n.func.value.attr == attr:
+            out.append((one(n.args[0]), n))
+    return out
+
+
+def _signal_like(repo, mod, func, e, depth=0):
+    """the expression statically denotes signal objects: asserted isinstance of Signal subclasses, or the result of a
+    _collect_all* call whose filter is isinstance(x, <Signal subclass>) (set differences keep the property)"""
+    def is_sig_class(c):
+        kinds = c.elts if isinstance(c, ast.Tuple) else [c]
+        res = []
+        for k in kinds:
+            rc = repo.resolve_class(mod, k)
+            res.append(rc is not None and any(cd.name == 'Signal' for _, cd in repo.mro(*rc)))
+        return bool(res) and all(res)
+
+    def filt_is_sig(lam):
+        return isinstance(lam, ast.Lambda) and _is_call(lam.body, name='isinstance', nargs=2) and is_sig_class(lam.body.args[1])
+    if depth > 4:
+        return False
+    if isinstance(e, ast.BinOp) and isinstance(e.op, ast.Sub):
+        return _signal_like(repo, mod, func, e.left, depth + 1)
+    if _is_call(e, attr='_collect_all_single') and e.args:
+        return filt_is_sig(e.args[0])
+    if not isinstance(e, ast.Name):
+        return False
+    for n in _own_nodes(func):
+        if isinstance(n, ast.Assert) and _is_call(n.test, name='isinstance', nargs=2) and norm(n.test.args[0]) == e.id \
+                and is_sig_class(n.test.args[1]):
+            return True
+    for kind, node, val in _bindings(func, e.id):
+        if kind == 'assign' and _signal_like(repo, mod, func, val, depth + 1):
+            return True
+        if kind == 'unpack':
+            call, k = val
+            if _is_call(call, attr='_collect_all') and call.args and isinstance(call.args[0], ast.List) and k < len(call.args[0].elts) \
+                    and filt_is_sig(call.args[0].elts[k]):
+                return True
+    return False
+
+
+def rule_registry(repo):
+    r = RuleResult('R-C16-registry', "every API that brings signals into a design after elaboration registers them in the registry the "
+                                     "tracing passes enumerate (so they get a $var / a text-wave entry)")
+    # the registry is derived from what the tracers iterate
+    v = _Vcd(repo)
+    top_v = _params(v.mk)[1]
+    regs = set()
+    for f_, tp in ((v.mk, top_v), (repo.mod(TW).get_func('PrintTextWavePass._collect_sig_func'), None)):
+        tp = tp or _params(f_)[1]
+        for n in ast.walk(f_):
+            src = n.iter if isinstance(n, (ast.For, ast.comprehension)) else None
+            src = _strip_wrappers(src) if src is not None else None
+            if isinstance(src, ast.Attribute) and isinstance(src.value, ast.Attribute) and src.value.attr == '_dsl' and norm(src.value.value) == tp:
+                regs.add(src.attr)
+    if len(regs) != 1:
+        raise AnalysisError(f"tracing passes enumerate {sorted(regs)}: expected one common signal registry")
+    reg = regs.pop()
+    r.ok(v.mod, v.q, f"tracers enumerate <top>._dsl.{reg}", nontrivial=False)
+    cm = repo.mod(COMPONENT)
+    named = 'all_named_objects'
+    n_sig = 0
+    for name, f_ in sorted(cm.methods('Component').items()):
+        na_ = _registry_adds(f_, named)
+        ra_ = [norm(e) for e, _ in _registry_adds(f_, reg)]
+        for e, node in na_:
+            if not _signal_like(repo, cm, f_, e):
+                continue
+            n_sig += 1
+            _chk(r, norm(e) in ra_, cm, f'Component.{name}', f"{norm(e)} -> {named} and {reg}",
+                 f"the signals `{norm(e)}` are added to the design ({named}; they are connected and simulated) but not to `{reg}`, the "
+                 f"registry VcdGenerationPass and PrintTextWavePass enumerate: ports/signals created after elaboration (debug ports, "
+                 f"added or replaced components, spawned slices) get no $var and no text-wave entry", node)
+    if n_sig < 3:
+        raise AnalysisError(f"R-C16-registry: only {n_sig} post-elaboration signal registrations recognised in Component.py (expected >= 3)")
+    r.require_floor(3 if not r.findings else 0)
+    return r
+
+
 def rule_symbols(repo):
     """Distinct nets must get distinct VCD identifier codes, made of printable non-blank characters: the symbol generator
     is a closed (input-free) generator function, so its first N outputs are constant-folded and compared."""
@@ -2351,7 +2509,7 @@ def rule_passgroup_order(repo):
     return rule_agree(repo)
 
 
-RULES = [rule_tick_order, rule_compress, rule_header, rule_textwave, rule_gen_isolation, rule_symbols, rule_passgroup_order]
+RULES = [rule_tick_order, rule_compress, rule_header, rule_textwave, rule_gen_isolation, rule_registry, rule_symbols, rule_passgroup_order]
 
 
 # ---------------------------------------------------------------------------
@@ -2458,6 +2616,11 @@ MUTANTS = [
         (VCD, "      for i, (signal, symbol) in enumerate( net_details ):\n", "      dirty = False\n      for i, (signal, symbol) in enumerate( net_details ):\n"),
         (VCD, "          print( f'{net_bits_bin_str}{symbol}', file=vcd_file )\n", "          print( f'{net_bits_bin_str}{symbol}', file=vcd_file )\n          dirty = True\n"),
         (VCD, "file=vcd_file, flush=True )\n      vcd_sim_ncycles += 1", "file=vcd_file, flush=dirty )\n      vcd_sim_ncycles += 1")),
+    _m('debug-port-not-registered', COMPONENT, "    top._dsl.all_signals.add( o )\n", "", 'R-C16-registry'),
+    _m('spawned-slices-not-registered', COMPONENT, "    top._dsl.all_signals       |= spawned_signals\n", "", 'R-C16-registry'),
+    _m('children-by-one-level-walk', VCD, "      for child in m.get_child_components():\n        recurse_models( child, spaces+'  ' )\n",
+       "      for name, obj in m.__dict__.items():\n        if name[0] == '_': continue\n        for child in ( obj if isinstance( obj, list ) else [ obj ] ):\n"
+       "          if isinstance( child, Component ):\n            recurse_models( child, spaces+'  ' )\n", 'R-C16-header'),
     _m('var-name-keeps-dot', VCD, "repr(signal)[ len(m_name)+1: ]", "repr(signal)[ len(m_name): ]", 'R-C16-header'),
     _m('no-upscope', VCD, '      print( f"{spaces}$upscope $end", file=vcd_file )\n', "", 'R-C16-header'),
     _m('clock-index-off-by-one', VCD, "vcd_clock_net_idx = len(trimmed_value_nets)\n\n      if new_net:",
@@ -2571,6 +2734,11 @@ EQUIV = [
     _m('textwave-filter-in-set-flipped', TW,
        "      if x.is_top_level_signal() and x.get_field_name() != \"clk\" and x.get_field_name() != \"reset\":\n        signal_names.append( (x._dsl.level, repr(x)) )\n",
        "      if not x.is_top_level_signal() or x.get_field_name() in {\"clk\", \"reset\"}:\n        pass\n      else:\n        signal_names.append( (x._dsl.level, repr(x)) )\n"),
+    _m('children-by-full-walk', VCD, "      for child in m.get_child_components():\n        recurse_models( child, spaces+'  ' )\n",
+       "      todo = [ obj for name, obj in m.__dict__.items() if name[0] != '_' ]\n      while todo:\n        child = todo.pop( 0 )\n"
+       "        if isinstance( child, list ):\n          todo = list( child ) + todo\n        elif isinstance( child, Component ):\n"
+       "          recurse_models( child, spaces+'  ' )\n"),
+    _m('debug-port-registered-by-update', COMPONENT, "    top._dsl.all_signals.add( o )\n", "    top._dsl.all_signals |= { o }\n"),
     _m('dump-guard-flipped', PREP, "    if top.has_metadata( VcdGenerationPass.vcd_func ):\n      ret.append( top.get_metadata( VcdGenerationPass.vcd_func ) )\n",
        "    if not top.has_metadata( VcdGenerationPass.vcd_func ):\n      pass\n    else:\n      ret.append( top.get_metadata( VcdGenerationPass.vcd_func ) )\n"),
     _m('vcd-str-conditional-expression', BITS,
